@@ -671,14 +671,12 @@ macro_rules! algorithm {
                 into_error!(InvalidLeadingZeros, index);
             }
             // NOTE: Zeros has to be 0 here, so our index == 1 or 2 (depending on sign)
-            match iter.peek().map(|&c| char_to_digit_const(c, format.radix())) {
+            if let Some(Some(_)) = iter.peek().map(|&c| char_to_digit_const(c, format.radix())) {
                 // Valid digit, we have an invalid value.
-                Some(Some(_)) => into_error!(InvalidLeadingZeros, index),
-                // Have a non-digit character that follows.
-                Some(None) => $invalid_digit!(<T>::ZERO, iter.cursor() + 1, iter.current_count()),
-                // No digits following, has to be ok
-                None => $into_ok!(<T>::ZERO, iter.cursor(), iter.current_count()),
-            };
+                into_error!(InvalidLeadingZeros, index);
+            }
+            // NOTE: A non-digit character, which may be the base suffix, or
+            // the end of the input are both handled when parsing the digits.
         }
     }
 
